@@ -218,10 +218,12 @@ func runC07(c *Ctx) {
 	}
 	c.Rule = fmt.Sprintf("explicit-state BFS to depth %d over edit/movement/kill/yank/history-walk/undo/redo commands in emacs and vi, histories {none, 2 entries}; in every reached state 6 law probes (undo until stable, undo^n redo^n for n=1..3, undo+edit+redo, undo+edit+undo) are executed; buffers observed at every wait. non-trivial = distinct states reached (the state key contains the undo stacks)", depth)
 	c.Assumptions = []string{"'previously shown for that line' is checked against all buffers shown earlier in the session plus the history entries (the history position is not observable through the API)", "sequences beyond the depth bound are not explored (no random tail: sampling is a different technique)"}
-	c.Bounds = map[string]any{"depth": depth, "probes_per_state": 8, "histories": []string{"none", "[one, two words]"}}
+	c.Bounds = map[string]any{"depth": depth, "probes_per_state": 8, "histories": []string{"none", "[one, two words]", "[one, two words] in the second call of a Shell whose first call typed foo, walked up and accepted a history line"}}
 	H2 := []string{"one", "two words"}
 	for _, m := range c07Modes(quick) {
-		for hi, H := range [][]string{nil, H2} {
+		// hi == 2: the search starts in the SECOND call of a Shell whose first call typed on the input
+		// line, walked up to a history line and accepted that one (state left over between calls)
+		for hi, H := range [][]string{nil, H2, H2} {
 			if c.Expired() {
 				c.Cap("internal deadline: " + m.name + " skipped")
 				break
@@ -230,9 +232,16 @@ func runC07(c *Ctx) {
 			if H != nil {
 				cfg.Hist = []harness.HistSpec{{Kind: "default", Lines: H}}
 			}
+			if hi == 2 {
+				if m.name == "vi" {
+					cfg.PriorCalls = [][]harness.Answer{Keys("foo", "\x1b", "k", "\r")}
+				} else {
+					cfg.PriorCalls = [][]harness.Answer{Keys("foo", "\x10", "\r")}
+				}
+			}
 			for si2, extraPre := range [][]string{nil, m.longSeed} {
 				pre := Keys(append(append([]string{}, m.pre...), extraPre...)...)
-				if si2 == 1 && quick && hi == 1 {
+				if si2 == 1 && (quick && hi == 1 || hi == 2) {
 					continue
 				}
 				type reached struct {
